@@ -7,7 +7,10 @@ temporary upload directory).  Three verdicts per case: implementation, Lean mode
 independent oracle written here from the property text.
 
   upload    client file names (separators, dot-dot, NUL, unicode incl. non-BMP / combining /
-            fullwidth digits / lone surrogates, empty, only-unsafe, 10 kB, None, non-str) x sizes
+            fullwidth digits / lone surrogates, empty, only-unsafe, 10 kB, None, non-str; HOSTILE ENDS:
+            a body of safe characters only + each of 21 single unsafe characters — newline, CR, space,
+            NUL, dot, slash, backslash, tab, U+2028/2029, VT, FF, NEL, FS, NBSP, `$`, `^`, … — at the
+            start / the end / both ends / doubled / inside, CR LF, the character alone) x sizes
             {None, 0, max-1, max, max+1, huge} x content types {right, wrong, None, case variant,
             with parameters}: the written path's parent is the upload directory, its name is made of
             safe characters + timestamp + ".xml", the file holds exactly the body, NOTHING else is
@@ -101,6 +104,25 @@ def snapshot(root: Path) -> dict[str, Any]:
     return snap
 
 
+# bodies made of safe characters only (what a shortcut for "already safe" names lets through) …
+SAFE_BODIES = ["ksr-root-2030-q1", "x", "KSR_1", "-", "_", "0", "a" * 200]
+# … and the single characters that are NOT safe, by the name used in the counters
+UNSAFE_SINGLE = [
+    ("newline", "\n"), ("cr", "\r"), ("space", " "), ("nul", "\x00"), ("dot", "."), ("slash", "/"), ("backslash", "\\"), ("tab", "\t"),
+    ("u2028", "\u2028"), ("u2029", "\u2029"), ("vtab", "\x0b"), ("formfeed", "\x0c"), ("nel", "\x85"), ("fs", "\x1c"), ("nbsp", "\xa0"),
+    ("dollar", "$"), ("caret", "^"), ("colon", ":"), ("e-acute", "\u00e9"), ("fullwidth-digit", "\uff11"), ("del", "\x7f"),
+]
+
+
+def hostile_ends(body: str, ch: str) -> list[tuple[str, str]]:
+    """(position, name): the unsafe character once at the start, at the end, at both ends; doubled at the end and at the start;
+    CR LF at the end for the newline; once inside."""
+    out = [("start", ch + body), ("end", body + ch), ("both", ch + body + ch), ("end-doubled", body + ch + ch), ("start-doubled", ch + ch + body), ("inside", body[: len(body) // 2] + ch + body[len(body) // 2 :] if len(body) > 1 else body + ch + body)]
+    if ch == "\n":
+        out += [("end-crlf", body + "\r\n"), ("end-after-extension", body + ".xml\n")]
+    return out
+
+
 def filenames(r: Any, tier: str) -> list[tuple[str, Any]]:
     out: list[tuple[str, Any]] = [
         ("plain", "ksr-root-2026-q1-0.xml"),
@@ -142,6 +164,17 @@ def filenames(r: Any, tier: str) -> list[tuple[str, Any]]:
         ("long-mixed", "a/" * 5120),
         ("long-dotdot", "../" * 3413),
     ]
+    # HOSTILE ENDS: a body of safe characters only, with ONE unsafe character at the start / at the end / at both ends,
+    # doubled, and inside (every name an "is it safe already?" shortcut, an anchored pattern, a strip() or a basename()
+    # could get wrong: `$` before a final newline, `\\s`, `\\w`, line and paragraph separators, NUL, path separators)
+    bodies = SAFE_BODIES if tier != "quick" else SAFE_BODIES[:3]
+    for bi, body in enumerate(bodies):
+        for cname, ch in UNSAFE_SINGLE:
+            for pos, name in hostile_ends(body, ch):
+                out.append((f"hostile:{pos}:{cname}:{bi}", name))
+    for cname, ch in UNSAFE_SINGLE:  # no body at all: the unsafe character alone, doubled
+        out.append((f"hostile:alone:{cname}", ch))
+        out.append((f"hostile:alone-doubled:{cname}", ch + ch))
     alphabet = list("abzAZ09_-") + list("/\\. \x00\n:;%~$") + ["\u00e9", "\u0416", "\uff11", "\u0301", "\U0001f600", "\ud800", "\u212a"]
     for k in range(60 if tier == "quick" else 600):
         n = r.choice([1, 2, 3, 5, 8, 20, 60])
@@ -237,6 +270,9 @@ def stream_upload(res: Result, tier: str, driver_ok: bool) -> None:
         }
         res.count(case)
         res.bump("upload:name:" + p["ftag"].split(":")[0])
+        if p["ftag"].startswith("hostile:"):
+            res.bump("upload:hostile-ends:position:" + p["ftag"].split(":")[1])
+            res.bump("upload:hostile-ends:character:" + p["ftag"].split(":")[2])
         res.bump(f"upload:size:{p['stag']}")
         res.bump(f"upload:ctype:{p['ctag']}")
         out = c["out"]
@@ -999,7 +1035,7 @@ STREAMS = [("upload", stream_upload), ("whitelist", stream_whitelist), ("verdict
 def run(tier: str, driver_ok: bool) -> Result:
     res = Result("C20")
     res.rule = (
-        "upload: ~40 crafted + random client file names (unsafe/unicode/NUL/surrogate/10 kB/None) with a passing upload, sizes {None,0,max-1,max,max+1,huge} x "
+        "upload: ~40 crafted + random client file names (unsafe/unicode/NUL/surrogate/10 kB/None) + hostile ends (safe-only body x 21 single unsafe characters incl. newline / CR / NUL / U+2028 / `$` x {start, end, both, doubled, inside, CR LF, alone}) with a passing upload, sizes {None,0,max-1,max,max+1,huge} x "
         "content types {right,wrong,None,case,params,empty} x 3 names, missing / relative upload dir; tree snapshot before/after; random pathlib joins; "
         "whitelist: real certificates x {listed, unlisted, empty, upper-case, prefix, longer, colon-separated, SPKI digest} + no TLS / no certificate / bad DER; "
         "verdict: archived and broken KSRs x previous SKR {none, chained, same id, unrelated, later, unparsable} x one-rule policy perturbations x clocks; "
